@@ -32,6 +32,16 @@ def groups(n, seed):
                 q["time_limit"] = float(rng.integers(1, 90))         # expires exactly at that read (unit ticks)
             runs.append({"prob": ps, "params": q, "run": rn, "twin": "C08"})
         gs.append({"tag": "C08", "runs": runs})
+    # filter policies veto steps after the controller accepted them: limits placed around / after the vetoes
+    from pygradflow.params import PenaltyUpdate
+    for i in range(12 if n > 100 else 4):
+        ps = ("repo", ["hs71", "hs71c"][i % 2])
+        pk = dict(penalty_update=[PenaltyUpdate.ObjectiveFilter, PenaltyUpdate.LagrangianFilter][(i // 2) % 2], iteration_limit=40,
+                  display_interval=1e9)
+        runs = [{"prob": ps, "params": dict(pk), "run": "A", "twin": "C08"}]
+        for rn in ("B", "C", "D"):
+            runs.append({"prob": ps, "params": dict(pk, iteration_limit=int(rng.integers(8, 24))), "run": rn, "twin": "C08"})
+        gs.append({"tag": "C08.filterveto", "runs": runs})
     # deadline inside the Newton loop of the exact controller while one doubling reaches lamb_max
     probs = [("repo", "tame")] + [("convex_qp", 1000 + k, 3, 1, {}) for k in range(6 if n > 100 else 2)]
     for ps in probs:
